@@ -91,7 +91,7 @@ PROPERTY_META = {
                 design_ref='DESIGN.md 6 C11'),
     'C06': dict(claimed=True, level='model_checking',
                 text='A ghost lifetime model of the non-trivial value type vf::Tracked (every special member reports to a hook; one arbitrary watched address) asserts inside every function under contract: no construction over an alive object, no read/assign/destroy of a dead object, no byte copy over an alive object; reference assignment, swap and ElementTraits::destruct are verified to construct nothing, destroy exactly the items of the element once, and assign each item through its own operator.',
-                note='Bounded: span items <= 2. Vector-level units with non-trivial types (vec.f4t, vec.f4m, vec.c4_f4t): pop_back, clear, erase, destructor, emplace_back, operator[], copy/move assignment; for the single-field lists also move construction and swap (no object is touched), and for FixedSize<Tracked> reserve beyond capacity (relocation: nothing is constructed over an alive object, no byte copy overwrites one, no object of the returned block stays alive). Copy construction and move assignment of FixedSize<Tracked> vectors are additionally verified with the watched object in the source operand (vec.f4t.F0.*.src_watch.*): a copy leaves the source objects alive and not moved from and copy-constructs every held item exactly once; an element-wise move leaves the source objects alive as long as the source holds them. A value type with a trivial move and a user-provided copy constructor is not in the catalogue (seeded change C06-4 is not reported).',
+                note='Bounded: span items <= 2. Vector-level units with non-trivial types (vec.f4t, vec.f4m, vec.c4_f4t): pop_back, clear, erase, destructor, emplace_back, operator[], copy/move assignment; for the single-field lists also move construction and swap (no object is touched), and for FixedSize<Tracked> reserve beyond capacity (relocation: nothing is constructed over an alive object, no byte copy overwrites one, no object of the returned block stays alive). Copy construction and move assignment of FixedSize<Tracked> vectors are additionally verified with the watched object in the source operand (vec.f4t.F0.*.src_watch.*): a copy leaves the source objects alive and not moved from and copy-constructs every held item exactly once; an element-wise move leaves the source objects alive as long as the source holds them. The same copy-construction contract is discharged for FixedSize<vf::TrackedC> (trivial move constructor and destructor, user-provided copy constructor: the copy path has to test copy-triviality).',
                 design_ref='DESIGN.md 6 C06'),
     'C17': dict(claimed=True, level='model_checking',
                 text='The exception-enabled IR of the real code is verified with an allocation hook that fails nondeterministically at every call (which covers failing the k-th allocation for every k): contracts of AllocatorAwarePointer construction/copy construction/copy assignment (unbounded, proof) and of vector construction, reserve, copy construction, copy assignment and move assignment between unequal allocators state for the exceptional exit: nothing leaked (live-block counter), no double free (ledger assertions), the source completely unchanged, the target still valid (owns its blocks, reported capacity fits its block); reaching std::terminate is an assertion failure.',
@@ -286,7 +286,40 @@ def units(tier, seed=0):
                     if u['kind'] == 'proof':
                         uu['kind'] = 'bounded(capacity=%d, block=%d bytes; size, contents and offsets symbolic)' % (capk, max(0, unitsk // L.sa) * L.sa)
                     us.append(uu)
+    # C06: a value type with a trivial move constructor and destructor but a user-provided copy constructor (added after seeded change C06-4 was missed:
+    # the copy path must test copy-triviality, not move-triviality).  The type is defined in the TU itself (inst/support.hpp has no such type).
+    base = [u for u in us if u['id'] == 'vec.f4t.F0.copy_ctor.src_watch.cap2']
+    if base:
+        txtm, Lm = vec.c_unit('f4m', 0, maxc=2)
+        uc = dict(base[0]); uc['id'] = 'vec.f4c.F0.copy_ctor.src_watch.cap2'; uc['tu'] = 'vec_f4c_F0'
+        uc['gen'] = vec.cxx_tu('f4m', 0).replace('vf::TrackedM', 'vf::TrackedC').replace('#include "support.hpp"\n', '#include "support.hpp"\n' + TRACKEDC, 1)
+        uc['template_text'] = copy_ctor_src_watch_text(txtm).replace('TrackedM', 'TrackedC')
+        uc['cdefs'] = list(uc['cdefs']) + ['VF_TRIVIAL_DTOR=1']
+        uc['config'] = 'vector: FixedSize<TrackedC> (trivial move constructor and destructor, user-provided copy constructor), allocator traits F=0'
+        us.append(uc)
     return us
+
+
+TRACKEDC = '''namespace vf {
+// trivial move constructor and destructor, user-provided copy constructor and copy assignment that report to the lifetime hooks
+struct TrackedC
+{
+    unsigned v;
+    TrackedC() = delete;
+    explicit TrackedC(unsigned x) noexcept : v(x) { vf_obj_ctor(this, x); }
+    TrackedC(const TrackedC& o) noexcept : v(o.v) { vf_obj_copy(this, &o); }
+    TrackedC(TrackedC&&) = default;
+    TrackedC& operator=(const TrackedC& o) noexcept
+    {
+        vf_obj_assign(this, &o);
+        v = o.v;
+        return *this;
+    }
+    TrackedC& operator=(TrackedC&&) = default;
+    ~TrackedC() = default;
+};
+}  // namespace vf
+'''
 
 
 # (capacity, block bytes) of the target and of the source operand: target smaller and target larger than the source
